@@ -12,6 +12,7 @@ package main
 import (
 	"net/textproto"
 	"path"
+	"strconv"
 	"fmt"
 	"net"
 	"sort"
@@ -1257,6 +1258,24 @@ func (e *absEnv) stdCall(fr *absFrame, name string, args []aval, depth int) (ava
 			delete(m.m.vals, k)
 			delete(m.m.keys, k)
 			return atuple{}, true
+		}
+	case "strconv.Atoi":
+		if a, ok := args[0].(astr); ok {
+			if v, err := strconv.Atoi(string(a)); err == nil {
+				return atuple{aint(int64(v)), anil{}}, true
+			}
+			return atuple{aint(0), aiface{aptr{&aobj{name: "strconv error", typ: types.Typ[types.Int], f: map[string]aval{}}, ""}, types.Typ[types.Int]}}, true
+		}
+	case "strconv.ParseInt":
+		if a, ok := args[0].(astr); ok && len(args) == 3 {
+			b, ok1 := args[1].(aint)
+			z, ok2 := args[2].(aint)
+			if ok1 && ok2 {
+				if v, err := strconv.ParseInt(string(a), int(b), int(z)); err == nil {
+					return atuple{aint(v), anil{}}, true
+				}
+				return atuple{aint(0), aiface{aptr{&aobj{name: "strconv error", typ: types.Typ[types.Int], f: map[string]aval{}}, ""}, types.Typ[types.Int]}}, true
+			}
 		}
 	case "strconv.Itoa":
 		if v, ok := args[0].(aint); ok {
